@@ -38,12 +38,11 @@ theorem c36_clz (s : List Bool) : clz s = s.reverse.idxOf true := by
 
 /-! ## cyclic_mask -/
 
--- OBLIGATION c36_cyclic_mask : for positions start,end < bits: bit i of the mask is set iff i < bits and (start ≤ i ≤ end when start ≤ end; i ≤ end or start ≤ i when end < start, i.e. wrapped)
-theorem c36_cyclic_mask (bits s e i : Nat) (_hs : s < bits) (_he : e < bits) :
+-- OBLIGATION c36_cyclic_mask : for positions start,end < bits: bit i of the FULL returned value (every i, also i ≥ bits: no stray high bits) is set iff i < bits and (start ≤ i ≤ end when start ≤ end; i ≤ end or start ≤ i when end < start, i.e. wrapped)
+theorem c36_cyclic_mask (bits s e i : Nat) (hs : s < bits) (he : e < bits) :
     (cyclicMask bits s e).testBit i =
-      (decide (i < bits) && if s ≤ e then decide (s ≤ i ∧ i ≤ e) else decide (i ≤ e ∨ s ≤ i)) := by
-  rw [testBit_cyclicMask]
-  by_cases h : i < bits <;> simp [h]
+      (decide (i < bits) && if s ≤ e then decide (s ≤ i ∧ i ≤ e) else decide (i ≤ e ∨ s ≤ i)) :=
+  testBit_cyclicMask bits s e i hs he
 
 /-! ## extract/clear lowest set bit, the four masks
 
